@@ -107,6 +107,86 @@ fn check_path(
     }
 }
 
+
+/// An analysis method called on an instance from which `k` steps were already
+/// taken with `next()`.  The property speaks about fresh instances; for a used
+/// one only what both readings ("continue from here" and "start over") have in
+/// common is demanded: every predecessor reported is a valid shortest-path
+/// predecessor, every reachable non-source vertex that had not been yielded yet
+/// has one, and shortest_path() finds a target exactly when one is still ahead.
+fn check_used_tree(
+    what: &str,
+    pred: &[Option<usize>],
+    n: usize,
+    sources: &[usize],
+    yielded: &BTreeSet<usize>,
+    dist: &BTreeMap<usize, Option<i128>>,
+    w: &dyn Fn(usize, usize) -> Option<i128>,
+) -> Verdict {
+    ensure!(pred.len() == n, "{what} has {} entries for order {n}", pred.len());
+    for v in 0..n {
+        match pred[v] {
+            Some(u) => {
+                ensure!(!sources.contains(&v), "{what}: source {v} has predecessor {u}");
+                let Some(dv) = dist[&v] else {
+                    return Err(format!("{what}: unreachable vertex {v} has predecessor {u}"));
+                };
+                let Some(wt) = w(u, v) else {
+                    return Err(format!("{what}: predecessor {u} of {v} is not joined to it by an arc"));
+                };
+                let Some(du) = dist.get(&u).copied().flatten() else {
+                    return Err(format!("{what}: predecessor {u} of {v} is itself unreachable"));
+                };
+                ensure!(du + wt == dv, "{what}: predecessor {u} of {v} is not on a shortest path: {du} + {wt} != {dv}");
+            }
+            None => ensure!(
+                sources.contains(&v) || dist[&v].is_none() || yielded.contains(&v),
+                "{what}: reachable non-source vertex {v}, not yielded before the call, has no predecessor (yielded before: {yielded:?})"
+            ),
+        }
+    }
+    Ok(())
+}
+
+fn check_used_path(
+    what: &str,
+    path: Option<Vec<usize>>,
+    targets: &BTreeSet<usize>,
+    yielded: &BTreeSet<usize>,
+    dist: &BTreeMap<usize, Option<i128>>,
+    weight: &dyn Fn(&[usize]) -> Option<i128>,
+) -> Verdict {
+    let ahead = targets.iter().filter(|t| !yielded.contains(t)).filter_map(|t| dist.get(t).copied().flatten()).min();
+    let all = targets.iter().filter_map(|t| dist.get(t).copied().flatten()).min();
+    match path {
+        None => ensure!(
+            ahead.is_none(),
+            "{what} returned None although a target not yet yielded is reachable at distance {} (yielded before: {yielded:?}, targets {targets:?})",
+            ahead.unwrap()
+        ),
+        Some(p) => {
+            ensure!(!p.is_empty(), "{what} returned an empty path");
+            let t = *p.last().unwrap();
+            ensure!(targets.contains(&t), "{what} returned {p:?}, which does not end at a target ({targets:?})");
+            ensure!(p.len() == 1 || weight(&p).is_some(), "{what} returned {p:?}, which is not a walk in the digraph");
+            let dt = dist.get(&t).copied().flatten();
+            ensure!(
+                dt.is_some() && (dt == ahead || dt == all),
+                "{what} returned {p:?}: its target is at distance {dt:?}, the nearest target still ahead at {ahead:?}, the nearest of all at {all:?}"
+            );
+        }
+    }
+    Ok(())
+}
+
+fn used_splits(len: usize) -> Vec<usize> {
+    let mut ks = vec![1, 2, len / 2, len.saturating_sub(1), len];
+    ks.retain(|&k| k >= 1 && k <= len);
+    ks.sort_unstable();
+    ks.dedup();
+    ks
+}
+
 fn check_bfs_pred<D: Order + OutNeighbors>(
     g: &D,
     name: &str,
@@ -147,6 +227,30 @@ fn check_bfs_pred<D: Order + OutNeighbors>(
         &dist,
         &|p: &[usize]| m.walk_weight(p),
     )?;
+
+
+    // analysis methods on an instance that was already stepped
+    if n <= 40 {
+        for k in used_splits(items.len()) {
+            let mut it = BfsPred::new(g, sources.iter().copied());
+            let yielded: BTreeSet<usize> = it.by_ref().take(k).map(|(_, v)| v).collect();
+            let tree = it.predecessors();
+            check_used_tree(&format!("BfsPred<{name}>: predecessors() after {k} next() calls"), &tree.pred, n, sources, &yielded, &dist, &w)?;
+            let mut it = BfsPred::new(g, sources.iter().copied());
+            for _ in 0..k {
+                let _ = it.next();
+            }
+            let path = it.shortest_path(|v| targets.contains(&v));
+            check_used_path(
+                &format!("BfsPred<{name}>: shortest_path after {k} next() calls"),
+                path,
+                targets,
+                &yielded,
+                &dist,
+                &|p: &[usize]| m.walk_weight(p),
+            )?;
+        }
+    }
 
     let cycles = BfsPred::new(g, sources.iter().copied()).cycles();
     for c in &cycles {
@@ -348,6 +452,29 @@ impl Prop for C05 {
             dist,
             &|p: &[usize]| wm.walk_weight(p),
         )?;
+
+
+        if n <= 40 {
+            for k in used_splits(items.len()) {
+                let mut it = DijkstraPred::new(&g, s.iter().copied());
+                let yielded: BTreeSet<usize> = it.by_ref().take(k).map(|(_, v)| v).collect();
+                let tree = it.predecessors();
+                check_used_tree(&format!("DijkstraPred: predecessors() after {k} next() calls"), &tree.pred, n, s, &yielded, dist, &w)?;
+                let mut it = DijkstraPred::new(&g, s.iter().copied());
+                for _ in 0..k {
+                    let _ = it.next();
+                }
+                let path = it.shortest_path(|v| targets.contains(&v));
+                check_used_path(
+                    &format!("DijkstraPred: shortest_path after {k} next() calls"),
+                    path,
+                    &targets,
+                    &yielded,
+                    dist,
+                    &|p: &[usize]| wm.walk_weight(p),
+                )?;
+            }
+        }
 
         // classification
         let tdists: BTreeSet<i128> = targets.iter().filter_map(|t| dist[t]).collect();
